@@ -284,12 +284,12 @@ def run(ctx):
     ]
     jobs = [
         lambda c: decide(c, "c35_dec", max_dev=1 if q else 3, emit_upto=1 if q else 2),
-        lambda c: decide_sim(c, "c35_sim", 120 if q else 8000),
-        lambda c: sc.generate(c, "c35_gen_any", simulate=64 if q else 4000, NS=3, NI=2 if q else 3, L=2 if q else 3,
+        lambda c: decide_sim(c, "c35_sim", 120 if q else 6000),
+        lambda c: sc.generate(c, "c35_gen_any", simulate=64 if q else 2400, NS=3, NI=2 if q else 3, L=2 if q else 3,
                               max_muts=3, biased=(False,)),
-        lambda c: sc.generate(c, "c35_gen_cu", simulate=64 if q else 3200, NS=3, NI=2, L=2 if q else 3, max_muts=3,
+        lambda c: sc.generate(c, "c35_gen_cu", simulate=64 if q else 2400, NS=3, NI=2, L=2 if q else 3, max_muts=3,
                               biased=(False,), tree_filter="completeunary"),
-        lambda c: sc.generate(c, "c35_gen_small", simulate=48 if q else 1600, NS=2, NI=2, L=2, max_muts=2,
+        lambda c: sc.generate(c, "c35_gen_small", simulate=48 if q else 1200, NS=2, NI=2, L=2, max_muts=2,
                               biased=(False,), tree_filter="nodangling"),
     ]
 
